@@ -130,6 +130,13 @@ func DistanceLineToLine(line1Start, line1End, line2Start, line2End geom.Coord) f
 		s = ((wy*vz-wz*vy)*nx + (wz*vx-wx*vz)*ny + (wx*vy-wy*vx)*nz) / denom
 		t = ((wy*uz-wz*uy)*nx + (wz*ux-wx*uz)*ny + (wx*uy-wy*ux)*nz) / denom
 	}
+	endpointDistance := func() float64 {
+		return min(
+			DistancePointToLine(line1Start, line2Start, line2End),
+			DistancePointToLine(line1End, line2Start, line2End),
+			DistancePointToLine(line2Start, line1Start, line1End),
+			DistancePointToLine(line2End, line1Start, line1End))
+	}
 	if s < 0 || s > 1 || t < 0 || t > 1 {
 		/**
 		 * The closest approach of the two (infinite) lines lies outside at
@@ -137,11 +144,7 @@ func DistanceLineToLine(line1Start, line1End, line2Start, line2End geom.Coord) f
 		 * endpoint of one of the segments. Which endpoint cannot be told from
 		 * s and t alone when both are out of range, so take the minimum.
 		 */
-		return min(
-			DistancePointToLine(line1Start, line2Start, line2End),
-			DistancePointToLine(line1End, line2Start, line2End),
-			DistancePointToLine(line2Start, line1Start, line1End),
-			DistancePointToLine(line2End, line1Start, line1End))
+		return endpointDistance()
 	}
 	/**
 	 * The closest points are in interiors of segments,
@@ -156,5 +159,22 @@ func DistanceLineToLine(line1Start, line1End, line2Start, line2End geom.Coord) f
 	z2 := line2Start[2] + t*(line2End[2]-line2Start[2])
 
 	// length (p1-p2)
-	return Distance(geom.Coord{x1, y1, z1}, geom.Coord{x2, y2, z2})
+	distance := Distance(geom.Coord{x1, y1, z1}, geom.Coord{x2, y2, z2})
+
+	// For nearly parallel segments s and t are ill-conditioned: their error
+	// grows like 1/sin(angle), and when the cross product n is nothing but
+	// rounding noise they are arbitrary numbers that may well lie in [0, 1].
+	// The points computed from them are still points of the two segments, so
+	// their distance is an upper bound of the answer, just like the distances
+	// from the end points; and for nearly parallel segments the minimum is
+	// attained at an end point up to a term of the order of the angle. So take
+	// the smallest of the candidates.
+	if a := VectorDot(line1Start, line1End, line1Start, line1End); denom < nearlyParallel*a*c {
+		return min(distance, endpointDistance())
+	}
+	return distance
 }
+
+// nearlyParallel is the squared sine of the angle between two segments below
+// which DistanceLineToLine does not rely on the closest points of the lines alone.
+const nearlyParallel = 1e-6
